@@ -473,9 +473,14 @@ def generate_and_replay(module, name, constants, exe, exe_args=("replay",), inva
     return {"tlc": res, "summary": summary, "fails": fails, "name": name, "trace_lines": tlines, "crash": crash}
 
 
-def record_trace(exe, args, path, timeout=600):
+def record_trace(exe, args, path, timeout=600, leaks=False):
+    env = dict(os.environ)
+    # leak detection belongs to C19's check only; everywhere else a sanitizer report means a memory error
+    env["ASAN_OPTIONS"] = "detect_leaks=%d:abort_on_error=0:exitcode=1" % (1 if leaks else 0)
+    env["UBSAN_OPTIONS"] = "print_stacktrace=1:halt_on_error=1"
     with open(path, "w") as f:
-        r = subprocess.run([exe] + [str(a) for a in args], stdout=f, stderr=subprocess.PIPE, text=True, timeout=timeout)
+        r = subprocess.run([exe] + [str(a) for a in args], stdout=f, stderr=subprocess.PIPE, text=True, timeout=timeout,
+                           env=env)
     if r.returncode == 2:
         raise ModelFailure("recorder failed rc=%s: %s" % (r.returncode, r.stderr[-2000:]))
     if r.returncode != 0:
